@@ -36,7 +36,7 @@ func (j *jsonSubProto) Version() (byte, string) {
 	return j.id, j.name
 }
 
-const format = `{"seq":%d,"mtype":%d,"serviceMethod":%q,"meta":%q,"bodyCodec":%d,"body":"%s","xferPipe":%s}`
+const format = `{"seq":%d,"mtype":%d,"serviceMethod":%q,"status":%q,"meta":%q,"bodyCodec":%d,"body":"%s","xferPipe":%s}`
 
 // Pack writes the Message into the connection.
 // NOTE: Make sure to write only once or there will be package contamination!
@@ -66,6 +66,7 @@ func (j *jsonSubProto) Pack(m erpc.Message) error {
 		m.Seq(),
 		m.Mtype(),
 		m.ServiceMethod(),
+		m.Status(true).QueryString(),
 		m.Meta().QueryString(),
 		m.BodyCodec(),
 		bytes.Replace(bodyBytes, []byte{'"'}, []byte{'\\', '"'}, -1),
@@ -114,6 +115,8 @@ func (j *jsonSubProto) Unpack(m erpc.Message) error {
 	m.SetSeq(int32(gjson.Get(s, "seq").Int()))
 	m.SetMtype(byte(gjson.Get(s, "mtype").Int()))
 	m.SetServiceMethod(gjson.Get(s, "serviceMethod").String())
+	stat := gjson.Get(s, "status").String()
+	m.Status(true).DecodeQuery(goutil.StringToBytes(stat))
 	meta := gjson.Get(s, "meta").String()
 	m.Meta().ParseBytes(goutil.StringToBytes(meta))
 
